@@ -428,8 +428,16 @@ func (u *Unit) eventSorts(kind string) []string {
 		var s []string
 		for i, a := range d.Args {
 			if k := strings.Index(a.Sort, "."); k > 0 {
-				// a Go type name (pkg.Type): the sort of that type
-				if t := u.P.lookupType(nil, a.Sort[:k], a.Sort[k+1:]); t != nil {
+				// a Go type name (pkg.Type or *pkg.Type): the sort of that type
+				name, ptr := a.Sort, false
+				if strings.HasPrefix(name, "*") {
+					name, ptr, k = name[1:], true, k-1
+				}
+				t := u.P.lookupType(nil, name[:k], name[k+1:])
+				if t != nil && ptr {
+					t = types.NewPointer(t)
+				}
+				if t != nil {
 					if u.eventArgTyp == nil {
 						u.eventArgTyp = map[string]types.Type{}
 					}
